@@ -34,6 +34,19 @@ claim("C10", "DESIGN.md §3 C10",
       "Static analysis decides lock discipline: every access to a guarded field happens under its mutex on every production call path, stateful hashers only under exclusive locks, every lock released on every exit, goroutines joined, cache reads return copies. It does not decide linearizability. The apply-then-persist window (K1) is reported as a known finding.",
       TRUST + "Locks identified at type level (one instance per node). Declined: 'never mixes state' over all interleavings, race-detector exploration.")
 
+claim("C05", "DESIGN.md §3 C05",
+      "provenance + lockset + finite order-model evaluation of the replay filter's decision table + must-abort error paths (static)",
+      "Static analysis decides the version-assignment mechanism: counter written under the exclusive lock, advanced by exactly the number of events, per-index agreement in bulk paths, replay filter exact on every ordering of (persisted, entry) index, apply protocol (guard, new state, publish after write, failures abort), RefreshVersion derivation. It does not decide gaps across crash/leader-change schedules.",
+      TRUST + "Declined: absence of gaps over restarts/leader changes (raft, RocksDB).")
+claim("C07", "DESIGN.md §3 C07",
+      "must-pass-through / exactly-one-write structural rules, provenance of the batch, finite order-model of the replay filter, error-discipline rules (static)",
+      "Static analysis decides the atomic-apply mechanism (one Mutate per entry containing tree mutations and applied index, metadata, publish-after-write, abort on failure), the single-writer rule, the back-end batch shape, the replay filter, start-up ordering and the recovery path's error discipline and cache rebuild. It does not decide behaviour at arbitrary crash instants.",
+      TRUST + "Declined: SIGKILL instants, torn writes, durability of acknowledged snapshots.")
+claim("C09", "DESIGN.md §3 C09",
+      "must-call-after (interprocedural), error discipline, finite order-model of the transfer validator's decision table, provenance of request parameters (static)",
+      "Static analysis decides that Restore refreshes every in-memory structure derived from the store after a transfer, that transfer errors propagate, that the leader's validator refuses gaps / skips applied batches / accepts the rest on every ordering of (previous,new,last), and the wiring of metadata and request parameters. It does not decide convergence over schedules.",
+      TRUST + "Declined: convergence for all down/up/compaction schedules, WAL iterator semantics.")
+
 NOT_YET = "check not built yet (static rules for this property are planned in DESIGN.md §3)"
 ALL = ["C%02d" % i for i in range(1, 21)]
 NA = {}
